@@ -55,7 +55,13 @@ let () =
               (List.filter_map (fun i ->
                    if (not (List.nth !flags i)) && not (run_obeys !powers t (nat_of_int i)) then Some (string_of_int i) else None)
                   (List.init (List.length !powers) (fun i -> i))) in
-        Printf.printf "h=%d obey=%d bad=%s\n" !height (if ok then 1 else 0) bad
+        let auto = run_monitor_all !powers !flags t in
+        Printf.printf "h=%d obey=%d bad=%s auto=%d\n" !height (if ok then 1 else 0) bad (if auto then 1 else 0)
+      | ["L"; v] ->
+        (match run_monitor_lock !powers (tr ()) (nat_of_int (int_of_string v)) with
+         | None -> Printf.printf "lock %s rejected\n" v
+         | Some None -> Printf.printf "lock %s -\n" v
+         | Some (Some (b, r)) -> Printf.printf "lock %s %d@%d\n" v (int_of_nat b) (int_of_nat r))
       | ["C"; node; r; b] ->
         let q = run_commit_quorum !powers (tr ()) (nat_of_int (int_of_string r)) (nat_of_int (int_of_string b)) in
         Printf.printf "h=%d node=%s quorum=%d\n" !height node (if q then 1 else 0)
